@@ -199,7 +199,8 @@ def consistent_graph(rng, max_nodes=12):
     if rng.random() < 0.5:
         rng.shuffle(order)
     nodes = {n: nodes[n] for n in order}
-    return {"recipe": {"k": "NIRGraph", "nodes": nodes, "edges": edges}, "truth": truth, "erasable": erasable}
+    cg = {"recipe": {"k": "NIRGraph", "nodes": nodes, "edges": edges}, "truth": truth, "erasable": erasable}
+    return exotic_names(rng, cg)
 
 
 def erase(rng, cg, subset=None, wrong_outputs=True):
@@ -233,6 +234,32 @@ def erase(rng, cg, subset=None, wrong_outputs=True):
                 a["output_type"] = None
                 done.append((n, "none"))
     return r, done
+
+
+def exotic_names(rng, x, p=0.25):
+    """With probability p rename some nodes: names that contain dots, names of which one is the part before the last dot of
+    another ('block' / 'block.0'), blanks, non-ASCII.  x is a recipe or a consistent_graph() result."""
+    if rng.random() >= p:
+        return x
+    r = x["recipe"] if "recipe" in x else x
+    names = list(r["nodes"])
+    if len(names) < 2:
+        return x
+    m = {}
+    a, b = rng.sample(names, 2)
+    m[b] = a + rng.choice([".0", ".output", ".input", ".x.y"])       # b is now "a.<something>"
+    for n in names:
+        if n not in m and n != a and rng.random() < 0.3:
+            m[n] = rng.choice(["{} ", " {}", "{}.", ".{}", "{}\u00e9", "{}.{}"]).format(n, n) if True else n
+    if len(set(m.values()) | (set(names) - set(m))) != len(names):
+        return x
+    f = lambda n: m.get(n, n)
+    r["nodes"] = {f(k): v for k, v in r["nodes"].items()}
+    r["edges"] = [(f(s), f(t)) for s, t in r["edges"]]
+    if "recipe" in x:
+        x["truth"] = {f(k): v for k, v in x["truth"].items()}
+        x["erasable"] = {f(k): v for k, v in x["erasable"].items()}
+    return x
 
 
 def wild_graph(rng, max_nodes=10):
@@ -282,4 +309,4 @@ def wild_graph(rng, max_nodes=10):
         edges.append((a, b))
         if rng.random() < 0.08:
             edges.append((a, b))
-    return {"k": "NIRGraph", "nodes": nodes, "edges": edges}
+    return exotic_names(rng, {"k": "NIRGraph", "nodes": nodes, "edges": edges})
